@@ -989,8 +989,19 @@ def m_shape_chain(g):
     """Shape -> Gather/Slice -> (Unsqueeze/Concat) -> Reshape/Expand/ConstantOfShape."""
     x = g.pick(lambda v: v.rank >= 2)
     s = g.add("Shape", [x], mag=8)
-    form = g.rng.choice(["gather_reshape", "slice_concat_reshape", "cos", "abs_shape", "size_mul", "gather_add"])
+    form = g.rng.choice(["gather_reshape", "slice_concat_reshape", "cos", "abs_shape", "size_mul", "gather_add", "cast_gather", "cast_gather"])
     g.hit("motif:shape_chain:" + form)
+    if form == "cast_gather":
+        # Shape -> Cast(non-INT64) -> Gather(1-D const indices): the gathered value is NOT an int64 dim any more
+        to = g.rng.choice([TP.FLOAT, TP.INT32, TP.BOOL, TP.DOUBLE])
+        c = g.add("Cast", [s], to=to, mag=8)
+        idx = g.i64([g.rng.randrange(x.rank) for _ in range(g.rng.choice([1, 1, 2]))])
+        r = g.add("Gather", [c, idx], axis=0, mag=8)
+        if to == TP.FLOAT and g.rng.random() < 0.5:
+            r = g.add("Div", [r, g.const(np.array(2.0, dtype=F32))], mag=8)
+        if g.depth == 0:
+            g.force_out.append(r)
+        return r
     if form == "gather_reshape":
         d0 = g.add("Gather", [s, g.const(np.array(0, dtype=np.int64))], mag=8)
         d0u = g.add("Unsqueeze", [d0, g.i64([0])], mag=8) if g.opset >= 13 else g.add("Unsqueeze", [d0], axes=[0], mag=8)
